@@ -18,7 +18,7 @@ BUDGET = {
     "thorough": {"runs": 200_000, "wall": 1500, "chunk": 100, "minimise": 200},
 }
 REQUIRED_PROBES = {"quick": ("cut_in_length", "cut_in_header", "cut_in_body", "multi_frame_segment",
-                             "single_byte_segments", "outbound_multi_packet"),
+                             "single_byte_segments", "outbound_multi_packet", "ends_with_separate"),
                    "thorough": ("cut_in_length", "cut_in_header", "cut_in_body", "multi_frame_segment",
                                 "single_byte_segments", "outbound_multi_packet", "body_ge_64k")}
 EVIDENCE = {
@@ -87,6 +87,9 @@ def gen_plan(rng, tier, index):
                        rng.choice(STREAMS + [rng.randrange(128)]), rng.choice(FUNCS + [rng.randrange(256)]),
                        rng.choice(SYSTEMS + [rng.getrandbits(32)]),
                        [rng.choice(["rand", "item"]), n, rng.getrandbits(32)]])
+    if rng.random() < 0.25:
+        # the peer ends the session: everything in front of the Separate.req must still be delivered
+        frames.append(["ctl", rc.SEPARATE_REQ, rng.getrandbits(32)])
     plan = {"active": rng.random() < 0.3, "frames": frames}
     # segmentation of the inbound stream: list of [size, gap_seconds, gap_steps]
     mode = rng.randrange(7)
@@ -246,6 +249,8 @@ def run(sim, plan):
 
     # ---- inbound stream, cut as planned --------------------------------------------------------
     frames = [build_frame(f) for f in plan["frames"]]
+    if frames and frames[-1].stype == rc.SEPARATE_REQ:
+        sim.probe("ends_with_separate")
     stream = b"".join(f.encode() for f in frames)
     bounds = []
     pos = 0
